@@ -152,9 +152,20 @@ pub fn exec(f: &[&str]) -> Option<String> {
         ["tobool", d] => match jsonb::to_bool(&unhex(d)?) { Ok(x) => format!("ok {}", b(x)), Err(_) => "err".into() },
         ["toi64", d] => match jsonb::to_i64(&unhex(d)?) { Ok(x) => format!("ok {}", x), Err(_) => "err".into() },
         ["tou64", d] => match jsonb::to_u64(&unhex(d)?) { Ok(x) => format!("ok {}", x), Err(_) => "err".into() },
+        ["isnull", d] => b(jsonb::is_null(&unhex(d)?)).to_string(),
+        ["isbool", d] => b(jsonb::is_boolean(&unhex(d)?)).to_string(),
+        ["isnum", d] => b(jsonb::is_number(&unhex(d)?)).to_string(),
+        ["isstr", d] => b(jsonb::is_string(&unhex(d)?)).to_string(),
+        ["isi64", d] => b(jsonb::is_i64(&unhex(d)?)).to_string(),
+        ["isu64", d] => b(jsonb::is_u64(&unhex(d)?)).to_string(),
+        ["isf64", d] => b(jsonb::is_f64(&unhex(d)?)).to_string(),
+        ["asf64", d] => match jsonb::as_f64(&unhex(d)?) { Some(x) => format!("ok {:016x}", canon_bits(x)), None => "none".into() },
+        ["tof64", d] => match jsonb::to_f64(&unhex(d)?) { Ok(x) => format!("ok {:016x}", canon_bits(x)), Err(_) => "err".into() },
+        // `to_str`, the cast (`tostr` is to_string); the float table is only used by the model
+        ["caststr", d, _] => match jsonb::to_str(&unhex(d)?) { Ok(s) => format!("ok {}", hex(s.as_bytes())), Err(_) => "err".into() },
         // Rust's str::parse::<f64> (the contract `to_f64` relies on for strings)
         ["strf64", s] => match String::from_utf8(unhex(s)?).ok().and_then(|s| s.parse::<f64>().ok()) {
-            Some(x) => format!("ok {:016x}", if x.is_nan() { (x.to_bits() & 0x8000000000000000) | 0x7ff8000000000000 } else { x.to_bits() }),
+            Some(x) => format!("ok {:016x}", canon_bits(x)),
             None => "none".into(),
         },
         ["existsall", d, ks] => {
@@ -171,4 +182,9 @@ pub fn exec(f: &[&str]) -> Option<String> {
         }
         _ => return None,
     })
+}
+
+/// f64 bits with the NaN payload made canonical (sign kept)
+pub fn canon_bits(x: f64) -> u64 {
+    if x.is_nan() { (x.to_bits() & 0x8000000000000000) | 0x7ff8000000000000 } else { x.to_bits() }
 }
